@@ -97,7 +97,6 @@ func TestC13MemGrid(t *testing.T) {
 
 func runMemCase(c *vrun.Case, gp gridPoint, variant int) vrun.Result {
 	rng := c.Rng
-	eff := effectiveMode(gp.Mode, gp.Level)
 	big := 1 << 20
 	bigProb := 0.10
 	if c.Env.Thorough() {
@@ -115,6 +114,13 @@ func runMemCase(c *vrun.Case, gp gridPoint, variant int) vrun.Result {
 		writers = [2]int{1, 1}
 	}
 	p := makePlan(rng, gp.WBits, big, writers, perMin, perMax, bigProb)
+	return runMemPlan(c, gp, p, writers, vname)
+}
+
+// runMemPlan sends the plan over a pair of websocket transports on the in-memory Conn and judges both directions.
+func runMemPlan(c *vrun.Case, gp gridPoint, p *plan, writers [2]int, vname string) vrun.Result {
+	rng := c.Rng
+	eff := effectiveMode(gp.Mode, gp.Level)
 
 	ca, cb, ab, ba := newMemPair(rng)
 	np := negotiated(gp.Mode, gp.Level, gp.WBits)
@@ -241,4 +247,83 @@ func exchangeFailures(ex *exchangeResult, prefix string, concurrent, realSocket 
 		return mk(vrun.Inconcl("wall-clock watchdog fired during the exchange; dump head: " + ex.dump[:min(len(ex.dump), 1500)]))
 	}
 	return vrun.Result{}, false
+}
+
+// TestC13StoredBlock: message sequences aimed at the encoder's second path - a message that compress/flate would emit
+// as a stored block together with the preset dictionary is encoded again without dictionary (seeded change C13-7: that
+// path recorded the message in the sender's window a second time). Such a message is incompressible and follows a
+// SHORT history; what tells a wrong sender window from a right one is a later message that repeats bytes sent BEFORE it.
+// Every sequence is: 1-4 tiny messages (history of 1-60 bytes), random noise of 40-6000 bytes, the tiny messages again
+// (one by one and glued together), more noise, the history once more, a text message.
+func TestC13StoredBlock(t *testing.T) {
+	env := vrun.LoadEnv()
+	var grid []gridPoint
+	for level := 1; level <= 9; level++ {
+		for _, wb := range []int{8, 9, 10, 12, 13, 15, 16, 20, 32} {
+			grid = append(grid, gridPoint{Mode: modeCT, Level: level, WBits: wb})
+		}
+	}
+	variants := env.Pick(5, 40)
+	meta := vrun.Meta{
+		Property: "C13", Workload: "TestC13StoredBlock", Total: len(grid) * variants,
+		Rule: "case = (context takeover, level 1..9, windowBits {8,9,10,12,13,15,16,20,32}, variant); one writer per side sends: 1-4 tiny messages (1-60 bytes of history in all), " +
+			"40-6000 random bytes, each tiny message again, all of them glued together (plus 0-5 fresh bytes), 40-6000 random bytes, the glued history again, a text message - " +
+			"incompressible messages behind a short dictionary take the encoder's re-encode path, and the repeats refer back across them. Judged like TestC13MemGrid " +
+			"(peer reads, independent decoder of the documented framing on the tapped frames, counters). Non-trivial: everything delivered, one frame per message, some frame compressed. Distinct: grid point x (history bytes, noise bytes).",
+	}
+	vrun.Loop(t, meta, 0, func(c *vrun.Case) vrun.Result {
+		gp := grid[c.Index/variants]
+		rng := c.Rng
+		var p plan
+		sig := ""
+		for s := 0; s < 2; s++ {
+			var ms []sentMsg
+			add := func(b []byte, class string, kind int) { ms = append(ms, sentMsg{append([]byte(nil), b...), class, kind}) }
+			k := 1 + rng.Intn(4)
+			budget := 1 + rng.Intn(60)
+			var tiny [][]byte
+			var hist []byte
+			for i := 0; i < k && budget > 0; i++ {
+				n := 1 + rng.Intn(min(budget, 14))
+				b := make([]byte, n)
+				for j := range b {
+					b[j] = "abcdefghijklmnopqrstuvwxyz0123456789#-_/"[rng.Intn(40)]
+				}
+				budget -= n
+				tiny = append(tiny, b)
+				hist = append(hist, b...)
+				add(b, "tiny", 2)
+			}
+			noise := func() []byte {
+				n := 40 + rng.Intn(400)
+				if rng.Intn(3) == 0 {
+					n = 400 + rng.Intn(5600)
+				}
+				b := make([]byte, n)
+				rng.Read(b)
+				return b
+			}
+			n1 := noise()
+			add(n1, "noise", 0)
+			for _, b := range tiny {
+				add(b, "tiny-again", 3)
+			}
+			glued := append([]byte(nil), hist...)
+			for j := rng.Intn(6); j > 0; j-- {
+				glued = append(glued, byte('A'+rng.Intn(26)))
+			}
+			add(glued, "history-again", 3)
+			n2 := noise()
+			add(n2, "noise", 0)
+			add(hist, "history-again", 3)
+			add([]byte("iscp upstream downstream chunk data point ack metadata "+string(hist)), "text", 2)
+			p[s] = [][]sentMsg{ms}
+			sig += fmt.Sprintf("/h%d/n%d", len(hist), len(n1))
+		}
+		r := runMemPlan(c, gp, &p, [2]int{1, 1}, "stored-block-sequence")
+		if r.Verdict == vrun.Held {
+			r.Sig = fmt.Sprintf("%d/%d%s", gp.Level, gp.WBits, sig)
+		}
+		return r
+	})
 }
